@@ -605,12 +605,17 @@ pub fn run(text0: &str, d: &Dir, rules: &mut BTreeMap<String, usize>) -> String 
     if !d.tysubst.is_empty() || d.dropgenerics {
         let f = parse_fn(&text, &d.item);
         let mut edits: Vec<Edit> = Vec::new();
+        // ranges removed by `dropgenerics`: a substituted type parameter of the fn itself must not be rewritten
+        // inside them (the shorter edit would win and leave `fn f<Vec<u8>>`)
+        let mut dropped: Vec<Range<usize>> = Vec::new();
         if d.dropgenerics {
             if f.sig.generics.lt_token.is_some() {
                 let r = br(f.sig.generics.lt_token.span()).start..br(f.sig.generics.gt_token.span()).end;
+                dropped.push(r.clone());
                 edits.push(Edit { range: r, text: String::new(), rule: "R7" });
             }
             if let Some(w) = &f.sig.generics.where_clause {
+                dropped.push(br(w.span()));
                 edits.push(Edit { range: br(w.span()), text: String::new(), rule: "R7" });
             }
         }
@@ -622,6 +627,9 @@ pub fn run(text0: &str, d: &Dir, rules: &mut BTreeMap<String, usize>) -> String 
                 die("anchor-lost", &format!("{}: tysubst {} not found", d.item, a));
             }
             for r in v {
+                if dropped.iter().any(|dr| dr.start <= r.start && r.end <= dr.end) {
+                    continue;
+                }
                 edits.push(Edit { range: r, text: b.clone(), rule: "R7" });
             }
         }
